@@ -1254,8 +1254,8 @@ class RoutingParameter:
             return ".*"
         if "*" in segment:
             return "[^/]+"
-        # Otherwise it's collection ID segment: transformed identically.
-        return segment
+        # Otherwise it's collection ID segment: matched literally.
+        return re.escape(segment)
 
     def _merge_segments(self, segments):
         acc = segments[0]
